@@ -224,7 +224,7 @@ impl IntoClientRequest for Uri {
     fn into_client_request(self) -> Result<Request> {
         let authority = self.authority().ok_or(Error::Url(UrlError::NoHostName))?.as_str();
         let host = authority
-            .find('@')
+            .rfind('@')
             .map(|idx| authority.split_at(idx + 1).1)
             .unwrap_or_else(|| authority);
 
